@@ -494,6 +494,192 @@ def rule_lsearch(F, R):
     R.floor("R-C18-5/get", m, 4, "line-search invocations")
 
 
+# ---------------------------------------------------------------------------------------------- objects shared by concurrent tasks
+def unsafe_classes(F):
+    """classes whose const interface can write hidden state: a mutable field that is not a synchronisation primitive, directly, in a base,
+    or in a member held by value"""
+    cls = F.classes
+    direct = {}
+    for k, c in cls.items():
+        for fd in c.get("fields", ()):
+            if fd.get("mutable") and fd["t"] not in SYNC_TYPES and (k, fd["n"]) not in MUTABLE_OK:
+                direct.setdefault(k, "%s::%s" % (k.split("::")[-1], fd["n"]))
+    unsafe = dict(direct)
+    names = sorted(cls, key=len, reverse=True)
+    changed = True
+    while changed:
+        changed = False
+        for k, c in cls.items():
+            if k in unsafe:
+                continue
+            for b in c.get("bases", ()):
+                b0 = b if b in unsafe else strip_targs(b)
+                if b0 in unsafe:
+                    unsafe[k] = unsafe[b0]
+                    changed = True
+                    break
+            if k in unsafe:
+                continue
+            for fd in c.get("fields", ()):
+                t = fd["t"]
+                if "*" in t or "&" in t or "unique_ptr" in t or "shared_ptr" in t or "reference_wrapper" in t:
+                    continue
+                for k2 in names:
+                    if k2 in unsafe and k2 in t and re.search(r"(?<![\w:])" + re.escape(k2) + r"(?![\w])", t):
+                        unsafe[k] = unsafe[k2]
+                        changed = True
+                        break
+                if k in unsafe:
+                    break
+    return unsafe
+
+
+def concurrent_bodies(F):
+    """(owner function, lambda function, why) for every lambda that runs concurrently with other instances of itself"""
+    out = []
+    for f in F.functions.values():
+        if not f.relfile.startswith(("src/", "include/")):
+            continue
+        for c in f.calls(lambda c: is_entry(c) or callee(c) == "nano::ml::tune"):
+            tune = callee(c) == "nano::ml::tune"
+            cands = args(c)[-1:] if tune else args(c)
+            for a in cands:
+                a0 = skip(a)
+                lam = None
+                if a0 is not None and a0["k"] == "lambda":
+                    lam = a0
+                elif a0 is not None and a0["k"] == "ref":
+                    var, _ = find_var(f, a0["d"])
+                    if var is not None and var.get("c") and skip(var["c"][0])["k"] == "lambda":
+                        lam = skip(var["c"][0])
+                if lam is not None:
+                    g = F.by_lid.get(lam.get("lid"), [None])[0]
+                    if g is not None:
+                        out.append((f, g, "called from the fold/trial tasks of ml::tune" if tune else "task of %s" % callee(c).split("::")[-1]))
+    return out
+
+
+_mw_cache = {}
+
+
+def method_writes_hidden(F, m, depth=0):
+    """can calling method m write state reachable from its object (directly, in its lambdas, or through its own methods)?"""
+    if m.key in _mw_cache:
+        return _mw_cache[m.key]
+    _mw_cache[m.key] = False        # cycles
+    res = False
+    bodies = [m] + [h for _, h in F.lambdas_in(m)]
+    for h in bodies:
+        if h.body is None:
+            continue
+        for tgt, kind, site in writes_in(h, h.body):
+            if this_rooted(h, tgt):
+                res = True
+                break
+        if res:
+            break
+        if depth < 4:
+            for c in h.calls(lambda c: c.get("ck") == "mem" and skip(obj(c)) is not None and skip(obj(c))["k"] == "this"):
+                for tg in F.resolve(c)[:2]:
+                    if tg is not m and method_writes_hidden(F, tg, depth + 1):
+                        res = True
+                        break
+                if res:
+                    break
+        if res:
+            break
+    _mw_cache[m.key] = res
+    return res
+
+
+def use_writes_hidden(F, fn, decl, depth=0):
+    """does function fn use the object `decl` in a way that can write its hidden state? returns a description or None"""
+    bodies = [fn] + [h for _, h in F.lambdas_in(fn)]
+    for h in bodies:
+        for x in h.nodes():
+            if x["k"] != "ref" or x.get("d") != decl:
+                continue
+            par = h.parent_of(x)
+            while par is not None and par["k"] in ("cast",):
+                par = h.parent_of(par)
+            if par is None or par["k"] != "call":
+                continue
+            if par.get("ck") == "mem" and ref_decl(obj(par)) == decl:
+                tgs = F.resolve(par)
+                if not tgs:
+                    if not par.get("cconst"):
+                        return "%s at %s" % (pp(par)[:50], h.loc(par))
+                    continue
+                if any(method_writes_hidden(F, tg) for tg in tgs[:3]):
+                    return "%s at %s" % (pp(par)[:50], h.loc(par))
+                continue
+            # passed on to another function: follow the parameter
+            idx = [i for i, a in enumerate(args(par)) if ref_decl(a) == decl]
+            if idx and depth < 3:
+                tgs = F.resolve(par)
+                if not tgs:
+                    continue
+                for tg in tgs[:2]:
+                    off = 0
+                    if idx[0] + off < len(tg.params):
+                        r_ = use_writes_hidden(F, tg, tg.params[idx[0] + off]["d"], depth + 1)
+                        if r_:
+                            return "passed to %s, which does %s" % (tg.qn.split("::")[-1], r_)
+    return None
+
+
+def rule_shared_objects(F, R):
+    unsafe = unsafe_classes(F)
+    # the callback of ml::tune really is invoked from its parallel task
+    tune = [f for f in F.functions.values() if f.qn == "nano::ml::tune" and not f.is_lambda]
+    task = [g for _, g in F.lambdas_in(tune[0]) if len(g.params) == 2 and g.params[0]["n"] == "index"] if tune else []
+    cbp = [p for p in tune[0].params if p["n"] == "callback"] if tune else []
+    invoked = bool(task) and bool(cbp) and any(c.get("op") == "()" and ref_decl(c["c"][0]) == cbp[0]["d"] for c in task[0].calls())
+    R.check(invoked, "R-C18-6", "tune callback context", tune[0].loc() if tune else "-", "the tuning callback runs inside the parallel (fold, trial) task",
+            "ml::tune no longer calls its callback from the task body (rule must be revisited)")
+    n = 0
+    for f, g, why in concurrent_bodies(F):
+        n += 1
+        bodies = [g] + [h for _, h in F.lambdas_in(g)]
+        local = set()
+        for h in bodies:
+            local |= {p["d"] for p in h.params}
+            for v in h.nodes():
+                if v["k"] == "var":
+                    local.add(v["d"])
+                    for b in v.get("bindings", ()):
+                        local.add(b["d"])
+        wi = worker_param(g)
+        wname = g.params[wi]["n"] if wi is not None else None
+        bad = {}
+        for h in bodies:
+            for x in h.nodes():
+                if x["k"] != "ref" or x.get("dk") not in ("var", "parm") or x["d"] in local:
+                    continue
+                t = (x.get("t") or "")
+                if not t:
+                    var, _ = find_var(f, x["d"])
+                    t = (var or {}).get("t") or next((p.get("t") or "" for p in f.params if p["d"] == x["d"]), "")
+                base = strip_targs(t.replace("const ", "").replace("&", "").replace("*", "").strip())
+                full = t.replace("const ", "").replace("&", "").strip()
+                hit = unsafe.get(full) or unsafe.get(base)
+                if not hit:
+                    continue
+                # an element selected by the task's own worker id is private to it
+                par = h.parent_of(x)
+                if wname and par is not None and par["k"] == "call" and par.get("op") == "[]" and pp(par["c"][1]) == wname:
+                    continue
+                how = use_writes_hidden(F, g, x["d"])
+                if how is None:
+                    continue          # only read through methods that do not touch the hidden state
+                bad[x["n"]] = (base, hit, how)
+        inst = "%s@%s" % (f.qn[-50:], g.loc())
+        R.check(not bad, "R-C18-6", inst, g.loc(), "objects with hidden per-call state are created inside the concurrent body, not shared (%s)" % why,
+                "concurrent tasks (%s) share %s: its const interface writes hidden state, so the tasks race on it and results depend on the schedule" % (
+                    why, "; ".join("`%s` (%s, hidden state %s, used at %s)" % (k, v[0].split("::")[-1], v[1], v[2]) for k, v in sorted(bad.items()))))
+    R.floor("R-C18-6", n, 40, "concurrent lambda bodies")
+
+
 def run(ctx):
     R = ctx.report
     tus = sorted(set(ctx.all_tus()) | {"witness/effects_inst.cpp"})
@@ -505,3 +691,4 @@ def run(ctx):
     rule_bodies(F, R)
     rule_tune(F, R)
     rule_lsearch(F, R)
+    rule_shared_objects(F, R)
